@@ -115,6 +115,7 @@ def translate():
 
 
 def coq_make(targets, timeout):
+    run([sys.executable, os.path.join(V, "tools", "mkcoqproject.py")])
     if not os.path.exists(os.path.join(COQ, "Makefile")) or \
             os.path.getmtime(os.path.join(COQ, "Makefile")) < os.path.getmtime(os.path.join(COQ, "_CoqProject")):
         rc, out = run("coq_makefile -f _CoqProject -o Makefile", cwd=COQ, timeout=60)
